@@ -54,7 +54,7 @@ def run_multi(exe, specs_delays, tag, timeout, barrier=False):
     cmd = [exe, "--out", out, "--timeout", str(timeout)] + (["--barrier"] if barrier else [])
     for s, d in specs_delays:
         cmd += ["--inst", spec_str(s, d)]
-    rc, log = vlib.sh(cmd, timeout=timeout + 30)
+    rc, log = vlib.sh(cmd, timeout=timeout * 8 + 60)
     evs = []
     if os.path.exists(out):
         for l in open(out):
